@@ -131,7 +131,7 @@ impl<K: ToUniqueIndex, V> VectorMap<K, V> {
             final(self).wf(),                                                                                               //@ob C19.vm.insert.wf
             forall|i: int| final(self).sget(i) == if i == key.index_spec() { Some(value) } else { old(self).sget(i) },     //@ob C19.vm.insert.contents_and_frame
             final(self).slen() == old(self).slen() + if old(self).sget(key.index_spec() as int).is_none() { 1nat } else { 0nat },  //@ob C19.vm.insert.len
-//@loop 1
+//@loop 1 kind=while
             invariant self.size == old(self).size, count_some(self.data@) == count_some(old(self).data@),
                 self.data@.len() >= old(self).data@.len(),
                 forall|i: int| 0 <= i < old(self).data@.len() ==> self.data@[i] == old(self).data@[i],
